@@ -30,11 +30,39 @@ def lib_partial(ip, st, pos, kws):
     return [(st, g)]
 
 
+def map_lambda(ip, st, f, view):
+    """map(lambda x: <expression>, xs) over a sequence of symbolic length (contracts/P_acc2.py: seq_map): the lazy sequence of
+    the expression at xs[i] -- only when evaluating it for an item has no effect, does not fork and raises nothing (checked
+    at every look at an item; otherwise out-of-subset)"""
+    from .calls import inline_lambda
+    snap = st.copy()
+
+    def get(i):
+        s2 = snap.copy()
+        n_exc = len(ip._exc_out)
+        outs = inline_lambda(ip, s2, f, [view.get(i)], {})
+        if len(outs) != 1 or len(ip._exc_out) != n_exc:
+            del ip._exc_out[n_exc:]
+            raise U("map(lambda, xs) over a symbolic sequence: the lambda forks or raises")
+        s3, v = outs[0]
+        if set(s3.heap) != set(snap.heap) or any(s3.heap[k] is not snap.heap[k] for k in snap.heap):
+            raise U("map(lambda, xs) over a symbolic sequence: the lambda has an effect")
+        return v
+    r = View(view.len, get)
+    r.lazy = True
+    r.ephemeral = True
+    if getattr(view, "guard_len", None) is not None:
+        r.guard_len = view.guard_len
+    return [(st, r)]
+
+
 def map_symbolic(ip, st, f, view):
     """map(f, xs) over a sequence xs of NUMBERS of symbolic length, f = functools.partial(operator.<op>, <number>): the
     lazy sequence of f(xs[i]).  f is applied to numbers only, which has no effect, cannot fork and cannot raise (the
     arithmetic operators over the mathematical numbers; a division is refused here); so evaluating an item whenever it is
     looked at gives what the lazy map object delivers.  Anything else: out-of-subset."""
+    if isinstance(f, Fun) and f.kind == "lambda":
+        return map_lambda(ip, st, f, view)
     from .histlib import LIB
     inner = getattr(f, "partial_of", None)
     ok_ops = [LIB[("operator", n)] for n in ("mul", "add", "sub")]
@@ -169,3 +197,177 @@ def str_format(ip, st, template, pos, kws):
 
 def register(ix):
     ix.lib[("functools", "partial")] = lib_partial
+
+
+# --------------------------------------------------------------------------- sets of (symbolic) strings
+class SymSetCell(object):
+    """set(<sequence of concrete length of strings, some of them symbolic>): the members are the DISTINCT values among
+    `items`.  Defined: len() (number of distinct values) and iteration (only where the items are provably pairwise
+    distinct: an obligation at the loop)."""
+
+    def __init__(self, items):
+        self.items = list(items)
+        self.order = None
+
+    def __repr__(self):
+        return "SymSetCell(%r)" % (self.items,)
+
+
+def symset_len(ip, st, cell):
+    terms = [ip.key_term(x) for x in cell.items]
+    total = I(0)
+    for i, t in enumerate(terms):
+        first = AND(*[NOT(EQ(terms[j], t)) for j in range(i)]) if i else TRUE
+        total = ADD(total, ITE(first, I(1), I(0))) if first.s != "true" else ADD(total, I(1))
+    return Num(total)
+
+
+def set_iteration_items(ip, st, ref):
+    """the items a `for` over a set of n strings delivers: its members in an order python does not specify -- an unknown
+    permutation p of 0..n-1 (the same every time this unmodified set object is iterated), the k-th item being
+    member p(k).  For a set built from possibly equal symbolic strings the members must be pairwise distinct (obligation:
+    provable from the path condition, e.g. after a duplicates check), otherwise the number of iterations is not n."""
+    cell = st.heap[ref.cid]
+    if cell.items == "unknown":
+        raise U("iteration over a set whose members are not known any more")
+    items = list(cell.items)
+    n = len(items)
+    if n <= 1:
+        return items
+    terms = [ip.key_term(x) for x in items]
+    if type(cell).__name__ == "SymSetCell":
+        distinct = AND(*[NOT(EQ(terms[i], terms[j])) for i in range(n) for j in range(i + 1, n)])
+        if not ip.known(st, distinct):
+            ip.emit("safety", "modelling: the members of the iterated set of strings are pairwise distinct", st, distinct)
+            st.assume(distinct)
+    order = st.notes.get("setorder_%s" % ref.cid)          # (kept per path: the facts about it live in the path condition)
+    if order is None:
+        order = [ip.reg.new("setorder%d" % k, "Int") for k in range(n)]
+        st.notes["setorder_%s" % ref.cid] = order
+        for p in order:
+            st.assume(AND(CMP("<=", I(0), p), CMP("<", p, I(n))))
+        for i in range(n):
+            for j in range(i + 1, n):
+                st.assume(NOT(EQ(order[i], order[j])))
+    out = []
+    for k in range(n):
+        t = terms[n - 1]
+        for m in range(n - 2, -1, -1):
+            t = ITE(EQ(order[k], I(m)), terms[m], t)
+        out.append(Opaque(t))
+    return out
+
+
+# --------------------------------------------------------------------------- local_types = {"name": "PyList[n,Lst[T]]"}
+def retype_new_lists(ip, st, before, v, ty):
+    """`name = [[] for _ in <n items>]` with Contract.local_types[name] == "PyList[n,Lst[T]]": the n NEW EMPTY lists the
+    right-hand side created get the symbolic-length representation (so that a cut loop can append to them).  Exactly
+    the value python creates, only its representation differs; anything else than n new empty lists is out-of-subset."""
+    from .interp import parse_type
+    head, args = parse_type(ty)
+    n = int(args[0])
+    cell = st.heap.get(v.cid) if isinstance(v, Ref) else None
+    if not isinstance(cell, PyListCell) or len(cell.items) != n or v.cid in getattr(ip.entry, "heap", {}):
+        raise U("local_types %s: the value is not a new list of %d items" % (ty, n))
+    seen = set()
+    for k, x in enumerate(cell.items):
+        h2, a2 = parse_type(args[k + 1] if len(args) == n + 1 and n > 1 else args[1])
+        inner = st.heap.get(x.cid) if isinstance(x, Ref) and not x.path else None
+        if h2 != "Lst" or not isinstance(inner, PyListCell) or inner.items or x.cid in seen \
+                or x.cid in getattr(ip.entry, "heap", {}):
+            raise U("local_types %s: item %d is not a new empty list of its own" % (ty, k))
+        seen.add(x.cid)
+        st.heap[x.cid] = LstCell(ip.reg.l_empty_canonical(ip.lst_sort(a2[0])))
+
+
+# --------------------------------------------------------------------------- zip(seq, <iterator over a known number of items>)
+def zip_concrete(ip, st, pos):
+    """zip(...) where every argument is a sequence of concrete length or a plain iterator over a concrete number of
+    remaining items (e.g. itertools.chain(a_tuple, another)): the list of tuples python's zip delivers, consumed here at
+    once (the result is only modelled as the iterable of a `for` / argument of list(): a View); the iterators are
+    advanced by exactly what zip pulls from them (round m, the first incomplete one, still pulls from the arguments
+    before the first exhausted one).  Returns None when the arguments are not of this form."""
+    from .sym import IterCell
+    rows = []
+    for p in pos:
+        if isinstance(p, Ref) and isinstance(st.heap.get(p.cid), IterCell):
+            c = st.heap[p.cid]
+            if getattr(c, "kind", None) is not None or getattr(c, "live", None) is not None or c.name is not None \
+                    or c.limit is not None or getattr(c, "shared", None) is not None or getattr(c, "upstream", None) is not None \
+                    or c.src is None:
+                return None
+            parts = getattr(c.src, "chain_parts", None)
+            if c.src.items is not None:
+                allitems = list(c.src.items)
+            elif parts is not None and all(v.items is not None for v in parts):
+                allitems = [x for v in parts for x in v.items]
+            else:
+                return None
+            k0 = lit_int(c.cursor)
+            if k0 is None:
+                return None
+            rows.append(("it", p, k0, allitems[k0:]))
+        else:
+            try:
+                v = ip.as_view(st, p)
+            except Exception:
+                return None
+            if v.items is None:
+                return None
+            rows.append(("seq", p, 0, list(v.items)))
+    m = min(len(r[3]) for r in rows)
+    first_short = min(j for j, r in enumerate(rows) if len(r[3]) == m)
+    for j, (kind, p, k0, items) in enumerate(rows):
+        if kind == "it":
+            c = st.heap[p.cid]
+            st.heap[p.cid] = IterCell(c.src, I(k0 + m + (1 if j < first_short else 0)), c.name, c.limit)
+    out = ip.items_view([Tup([r[3][k] for r in rows]) for k in range(m)])
+    out.lazy = True
+    return [(st, out)]
+
+
+# --------------------------------------------------------------------------- str(x) / repr(x), sep.join(...)  (opt-in str_format)
+def num_text(ip, v, which):
+    """str(x) / repr(x) of a number: an uninterpreted function of the number, per kind of number (repr(1) != repr(1.0))"""
+    reg = ip.reg
+    reg.need_val()
+    if getattr(v, "decimal", False):
+        raise U("str() of a Decimal")
+    f = reg.ufun("num_format_%s" % v.sort, ["Key", v.sort], "Key")
+    return Opaque(T("(%s %s %s)" % (f, reg.key("<%s>" % which).s, v.t.s), "Key"))
+
+
+def concrete_iter_items(ip, st, ref):
+    """the remaining items of a plain iterator over a known number of items (and the iterator exhausted), else None"""
+    from .sym import IterCell
+    c = st.heap[ref.cid]
+    if getattr(c, "kind", None) is not None or getattr(c, "live", None) is not None or c.name is not None \
+            or c.limit is not None or getattr(c, "shared", None) is not None or getattr(c, "upstream", None) is not None \
+            or c.src is None or c.src.items is None or lit_int(c.cursor) is None:
+        return None
+    items = list(c.src.items)[lit_int(c.cursor):]
+    st.heap[ref.cid] = IterCell(c.src, I(len(c.src.items)), c.name, c.limit)
+    return items
+
+
+def str_join(ip, st, sep, pos, kws):
+    """sep.join(xs) for a known number of strings: x0 + sep + x1 + ... (the same `+` as in the program text)"""
+    from .builtins_ import consume_view
+    if kws or len(pos) != 1:
+        raise U("str.join call form")
+    view = consume_view(ip, st, pos[0])
+    if view.items is None:
+        raise U("str.join over a sequence of symbolic length")
+    items = list(view.items)
+    if any(not (isinstance(x, Str) or (isinstance(x, Opaque) and x.sort == "Key")) for x in items):
+        raise U("str.join of values that are not strings (TypeError)")
+    if not items:
+        return [(st, Str(""))]
+    outs = [(st, items[0])]
+    for x in items[1:]:
+        nxt = []
+        for s2, acc in outs:
+            for s3, a2 in ip.binop(ast.Add(), acc, sep, s2):
+                nxt += ip.binop(ast.Add(), a2, x, s3)
+        outs = nxt
+    return outs
